@@ -2,7 +2,7 @@ use crate::{
     cfg::RegisterSet,
     parser::{
         CsrIType, CsrType, HasRegisterSets, IArithType, InstructionProperties, ParserNode,
-        Register, RegisterProperties,
+        Register, RegisterProperties, StoreType,
     },
 };
 
@@ -50,7 +50,8 @@ impl HasGenValueInfo for ParserNode {
                 _ => None,
             },
             ParserNode::Store(expr) => {
-                if expr.rs1.get().is_stack_pointer() {
+                // Only a whole word defines the value of a stack slot
+                if expr.rs1.get().is_stack_pointer() && *expr.inst.get() == StoreType::Sw {
                     Some((
                         MemoryLocation::StackOffset(expr.imm.get().value()),
                         AvailableValue::RegisterWithScalar(expr.rs2.get_cloned(), 0),
